@@ -23,6 +23,7 @@ class RxSite:
     name: str              # global name of the compiled pattern, or "<inline>"
     callback: Optional[ast.expr] = None
     subject: Optional[ast.expr] = None
+    nested: bool = False       # the use sits inside a function nested in `func` (a callback)
 
     @property
     def line(self) -> int:
@@ -58,6 +59,7 @@ def find_sites(model: Model) -> List[RxSite]:
     for fq, fi in list(model.functions.items()):
         if isinstance(fi.node, ast.Lambda):
             continue
+        nested_ids = {id(x) for d in ast.walk(fi.node) if isinstance(d, (ast.FunctionDef, ast.Lambda)) and d is not fi.node for x in ast.walk(d)}
         for n in ast.walk(fi.node):
             if not isinstance(n, ast.Call) or not isinstance(n.func, ast.Attribute):
                 continue
@@ -88,14 +90,14 @@ def find_sites(model: Model) -> List[RxSite]:
                     name = "<inline>"
                 cb = n.args[1] if attr in ("sub", "subn") and len(n.args) > 1 else None
                 subj = n.args[2] if attr in ("sub", "subn") and len(n.args) > 2 else (n.args[1] if attr not in ("sub", "subn") and len(n.args) > 1 else None)
-                sites.append(RxSite(fi.module, fq, n, APIS[attr], pat, flags, name, cb, subj))
+                sites.append(RxSite(fi.module, fq, n, APIS[attr], pat, flags, name, cb, subj, id(n) in nested_ids))
             else:
                 pq = model.resolve_name(fi.module, rtxt) if isinstance(recv, (ast.Name, ast.Attribute)) else None
                 if pq in comp:
                     pat, flags = comp[pq]
                     cb = n.args[0] if attr in ("sub", "subn") and n.args else None
                     subj = n.args[1] if attr in ("sub", "subn") and len(n.args) > 1 else (n.args[0] if n.args else None)
-                    sites.append(RxSite(fi.module, fq, n, APIS[attr], pat, flags, pq.split(".")[-1], cb, subj))
+                    sites.append(RxSite(fi.module, fq, n, APIS[attr], pat, flags, pq.split(".")[-1], cb, subj, id(n) in nested_ids))
     # compiled patterns never used still count (module-level compile)
     used = {s.name for s in sites}
     for q, (pat, flags) in comp.items():
